@@ -449,7 +449,8 @@ Lemma clone_loop_fuse c src : forall rest pre v u k,
   exists m' u',
     clone_loop c (vmem src) (length pre) (length rest) (v, u) = Panic PUser (with_mem m' v, u') /\
     ufuse u' = None /\
-    ulog u' = rev (clone_events (firstn k rest) (fresh_ids c (unext u) k)) ++ ulog u.
+    ulog u' = rev (clone_events (firstn k rest) (fresh_ids c (unext u) k)) ++ ulog u /\
+    unext u' = unext u + N.of_nat k.
 Proof.
   induction rest as [|r rest IH]; intros pre v u k Hsrc Htok Hst Hcap Hf Hk.
   - cbn [length] in Hk. lia.
@@ -461,7 +462,7 @@ Proof.
     + exists (vmem v), (disarm u). rewrite with_mem_id. split.
       * apply bind_panic. apply clone_into_panics with (t0 := r); [apply dec_enc; exact Hr|].
         apply tick_zero. exact Hf.
-      * split; reflexivity.
+      * split; [reflexivity|]. split; [reflexivity|]. cbn [disarm unext]. lia.
     + assert (Hst' := Hst). unfold store_ok in Hst'. rewrite capbytes in Hst'.
       assert (Hb : (length pre * szn c + szn c <= N.to_nat (vcap v) * szn c)%nat) by nia.
       set (ut := {| ulog := ulog u; unext := unext u; ufuse := Some (N.of_nat k) |}).
@@ -470,7 +471,7 @@ Proof.
       bstep Ec. cbn [ut unext] in *.
       set (n := if c_sz c =? 0 then 0 else unext u) in *.
       set (v1 := with_mem (mwrite (length pre * szn c) (enc (szn c) n) (vmem v)) v) in *.
-      destruct (IH (pre ++ [r]) v1 (cloned_uw c r ut) k) as (m' & u' & E & Hf' & Hlog).
+      destruct (IH (pre ++ [r]) v1 (cloned_uw c r ut) k) as (m' & u' & E & Hf' & Hlog & Hnx).
       * rewrite <- app_assoc. exact Hsrc.
       * exact Hrest.
       * apply store_ok_mwrite; [exact Hst|]. rewrite enc_length. lia.
@@ -478,10 +479,11 @@ Proof.
       * reflexivity.
       * lia.
       * rewrite app_length in E. cbn [length] in E. rewrite Nat.add_1_r in E.
-        exists m', u'. split; [exact E|]. split; [exact Hf'|].
-        rewrite Hlog. cbn [firstn]. rewrite fresh_ids_S. fold n.
-        cbn [cloned_uw ut unext ulog]. rewrite clone_events_cons. cbn [rev].
-        rewrite <- app_assoc. reflexivity.
+        exists m', u'. split; [exact E|]. split; [exact Hf'|]. split.
+        -- rewrite Hlog. cbn [firstn]. rewrite fresh_ids_S. fold n.
+           cbn [cloned_uw ut unext ulog]. rewrite clone_events_cons. cbn [rev].
+           rewrite <- app_assoc. reflexivity.
+        -- rewrite Hnx. cbn [cloned_uw ut unext]. lia.
 Qed.
 
 (** ** clone of a whole vector: the state's vector becomes the clone *)
@@ -664,14 +666,15 @@ Theorem clone_vec_panics c src u xs v0 k :
   exists v' u',
     clone_vec c src (v0, u) = Panic PUser (v', u') /\
     vlen v' = 0 /\ ufuse u' = None /\
-    uevents u' = rev (clone_events (firstn k xs) (fresh_ids c (unext u) k)) ++ uevents u.
+    uevents u' = rev (clone_events (firstn k xs) (fresh_ids c (unext u) k)) ++ uevents u /\
+    unext u' = unext u + N.of_nat k.
 Proof.
   intros Hwf Hbw Hbc HR Hf Hk Hfit.
   destruct (clone_prepare c src u xs v0 Hwf Hbw Hbc HR Hfit)
     as (vb & ub & v1 & u1 & Eb & Er & HR1 & Hc1 & Hbk1 & Hn1 & Hf1 & He1 & Hfc1).
   pose proof (rep_len _ _ _ HR) as Hlen.
   pose proof (rep_len _ _ _ HR1) as Hl1. cbn [length N.of_nat] in Hl1.
-  destruct (clone_loop_fuse c src xs [] v1 u1 k) as (m' & u2 & El & Hf2 & Hlog).
+  destruct (clone_loop_fuse c src xs [] v1 u1 k) as (m' & u2 & El & Hf2 & Hlog & Hnx2).
   { cbn [app]. apply rep_held. exact HR. }
   { apply (rep_tok _ _ _ HR). }
   { apply (rep_store _ _ _ HR1). }
@@ -689,8 +692,9 @@ Proof.
   { bstep Er. apply bind_panic. rewrite Hlen, Nat2N.id. exact El. }
   rewrite Ebody. unfold quiet_st. cbn [fst snd]. rewrite Ed.
   eexists _, _. split; [reflexivity|]. cbn [fst snd].
-  split; [exact Hl'|]. split; [exact Hf2|].
-  unfold uevents in *. cbn [ulog disarm] in *. rewrite He', Hlog, uevents_clones, He1.
-  reflexivity.
+  split; [exact Hl'|]. split; [exact Hf2|]. split.
+  - unfold uevents in *. cbn [ulog disarm] in *. rewrite He', Hlog, uevents_clones, He1.
+    reflexivity.
+  - cbn [unext]. rewrite Hn'. cbn [disarm unext]. rewrite Hnx2, Hn1. reflexivity.
 Qed.
 
